@@ -32,7 +32,10 @@ Three driving modes (all use only real classes from /repo):
           the connection is still opening), deadlines (Tdiscarded), the periodic ping (scripted period),
           back-pressure placed around those instants, replies, faults.  Recorded: what the script supplied
           (dispatches: contexts incl. client id and deadline + Thrift call; discards: the call whose deadline
-          event the stack's timeout sink signalled) and every chunk the connection accepted.
+          event the stack's timeout sink signalled) and every chunk the connection accepted.  Variants: large
+          bodies (up to 66 kB, exact body lengths around 16384 / 65536) against a socket that blocks inside the
+          8-byte frame header; 'raw' = the transport sink over a bare ScalesSocket (ScalesSocket.write's loop
+          over partial send() calls is on the write path) with a handle that takes a frame in 3-6 pieces.
 The Thrift call inside a Tdispatch is opaque here (C14 owns it): a stand-in "generated" service
 writes a scripted blob; the expected payload is what scales.thrift.serializer produces for the
 same call on its own.
@@ -79,7 +82,10 @@ RULE = {'C13': 'records generated from VERIF_SEED: message kind x tag class (byt
                'read-back; distinct by canonical record list.  Stream mode: seeded timelines in four families '
                '(calls while the connection opens; periodic ping due while a frame is stuck in the socket; deadline '
                'expiring while a frame is stuck or queued behind it; 2-4 calls with one deadline instant; calls on the '
-               'wire timing out while the writer is blocked; random mix with faults/close), ASCII and non-ASCII '
+               'wire timing out while the writer is blocked; random mix with faults/close; large calls whose Tdispatch '
+               'body has exactly 1400..20000 (thorough: ..66000) bytes, straddling 16384 and 65536, meeting a socket that '
+               'takes only 0..7 bytes of the frame header, their own deadline inside that block; "raw": the same stack '
+               'with the transport over a bare ScalesSocket taking a frame in several send() calls), ASCII and non-ASCII '
                'contexts; a stream trace is non-trivial if at least two dispatches were supplied and a write was '
                'split, a call was issued before the open completed, or a Tdiscarded / periodic Tping was written'}
 
@@ -332,6 +338,16 @@ def cases(prop, tier, seed):
 
 
 # ------------------------------------------------------------------ stream-mode scenario generators
+def _pad(n, salt=0):
+  """n ASCII letters without a short period (so that a skipped or repeated stretch shows)."""
+  out = []
+  x = (salt * 2654435761 + 12345) & 0xffffffff
+  for _ in range(n):
+    x = (x * 1103515245 + 12345) & 0x7fffffff
+    out.append(chr(97 + (x >> 16) % 26))
+  return ''.join(out)
+
+
 def _stream_call(rng, n, cls, T=0):
   """['call', thrift argument (distinct per call), caller properties, timeout ms]."""
   arg = 'c%d-%s' % (n, _text(rng, cls, 10))
@@ -551,6 +567,86 @@ def _stream_timeoutsblocked(rng, cls):
   return sc
 
 
+BIG_N_QUICK, BIG_N_THOROUGH = 24, 120
+CTX_DL_LEN = 2 + len(DEADLINE_KEY) + 2 + 16
+BIG_QUICK = [1400, 4096, 16383, 16384, 16385, 20000]
+BIG_THOROUGH = BIG_QUICK + [65535, 65536, 66000]
+
+
+def _big_call(rng, n, cls, client_id, T, body_len):
+  """A call whose marshalled Tdispatch body (contexts + empty dst/dtab + Thrift call) has exactly body_len bytes."""
+  props = _props(rng, cls, 2)
+  ctx = 2 + sum(4 + len(k.encode('utf8')) + len(v.encode('utf8')) for k, v in props)
+  if client_id is not None:
+    ctx += 4 + len(CLIENT_ID_KEY) + len(client_id.encode('utf8'))
+  if T:
+    ctx += CTX_DL_LEN
+  prefix = 'c%d-' % n
+  # Thrift strict binary call hi(string): version 4, name 4 + 2, seqid 4, field header 3, length 4, stop 1 = 22
+  pad = body_len - ctx - 4 - 22 - len(prefix)
+  return ['call', prefix, props, T, max(pad, 0)]
+
+
+def _stream_bigbody(rng, cls, sizes):
+  """A large call meets a socket that takes only part of the 8-byte frame header (0..7 bytes of room when the
+  frame starts); its own deadline may fire inside that block; other calls wait behind it."""
+  sc = _stream_base(rng, cls)
+  sc['fam'] = 'bigbody'
+  sc['lowat'] = rng.choice([1, 1, 8, 64])
+  t = rng.choice([10, 900])
+  steps = [['open'], ['at', t]]
+  n = 0
+  if rng.random() < 0.3:
+    n += 1
+    steps.append(_stream_call(rng, n, cls, 0))
+    steps.append(['adv', 3])
+    steps.append(['reply', 0])
+    steps.append(['adv', 3])
+  near_ping = rng.random() < 0.15
+  if near_ping:
+    steps.append(['atping', -40])
+  r = rng.choice([0, 1, 2, 3, 4, 5, 6, 7, 7, 8, 9, 100, 5000, None])
+  steps.append(['room', r])
+  T = rng.choice([0, 30, 30, 30, 200])
+  n += 1
+  steps.append(_big_call(rng, n, cls, sc['client_id'], T, rng.choice(sizes)))
+  for _ in range(rng.choice([0, 1, 2])):
+    n += 1
+    steps.append(_stream_call(rng, n, cls, rng.choice([0, 0, 30, 500])))
+  steps.append(['run'])
+  k = rng.random()
+  if k < 0.6:
+    steps.append(['adv', rng.choice([40, 60])])           # past the 30 ms deadline, blocked all the while
+  elif k < 0.8:
+    steps.append(['adv', 10])
+    steps.append(['drain', rng.choice([1, 8, 9, 300])])    # a little room before the deadline
+    steps.append(['adv', 50])
+  if rng.random() < 0.5:
+    steps.append(['drain', rng.choice([1, 7, 8, 20, 1000, 17000])])
+    steps.append(['adv', rng.choice([1, 30])])
+  if rng.random() < 0.3:
+    n += 1
+    steps.append(_stream_call(rng, n, cls, rng.choice([0, 40])))
+  steps.append(['drain', None])
+  steps.append(['adv', 20])
+  for _ in range(rng.choice([0, 1, 2])):
+    steps.append(['reply', rng.randint(0, 3)])
+  if near_ping:
+    steps.append(['atping', 10])
+  steps.append(['adv', 250])
+  sc['steps'] = steps
+  return sc
+
+
+def _stream_raw(rng, cls):
+  """The transport sink over a bare ScalesSocket whose handle takes a frame in several send() calls."""
+  sc = rng.choice([_stream_openrace, _stream_deadlinestall, _stream_samedeadline, _stream_mixed])(rng, cls)
+  sc['fam'] = 'raw-' + sc['fam']
+  sc['raw'] = True
+  sc['send_max'] = rng.choice([7, 16, 24, 40])
+  return sc
+
+
 def _stream_mixed(rng, cls):
   """Random timeline: calls, back-pressure, replies, the ping instants, faults, close."""
   sc = _stream_base(rng, cls)
@@ -602,6 +698,12 @@ def _stream_cases(rng, quick):
                  (_stream_samedeadline, 30), (_stream_timeoutsblocked, 30)):
     for i in range(n * mult):
       out.append(fam(rng, 'ascii' if i % 3 == 0 else 'uni'))
+  # own generators: the families above keep their seeds
+  rng2 = random.Random(rng.random())
+  for i in range(10 * mult):
+    out.append(_stream_raw(rng2, 'ascii' if i % 3 == 0 else 'uni'))
+  for i in range(BIG_N_QUICK if quick else BIG_N_THOROUGH):
+    out.append(_stream_bigbody(rng2, 'ascii' if i % 3 == 0 else 'uni', BIG_QUICK if quick or i % 2 else BIG_THOROUGH))
   return out
 
 
@@ -919,6 +1021,8 @@ def _stream_conn_class(simnet):
           raise self.tx_err
         if self.room is None or self.room > 0:
           k = len(data) if self.room is None else min(self.room, len(data))
+          if self.send_max:
+            k = min(k, self.send_max)          # one send() takes at most this much (several sends per frame)
           if self.room is not None:
             self.room -= k
           chunk = data[:k]
@@ -1050,6 +1154,7 @@ def _run_stream(script, loop):
     conn.connect_plan = ('ok', script.get('connect_ms', 0) / 1000.0)
     conn.lowat = script.get('lowat', 1)
     conn.room = script.get('room0')
+    conn.send_max = script.get('send_max')
     conn.on_accept = lambda chunk: ev.append({'e': 'Bytes', 'data': list(bytearray(chunk))})
 
     def on_closed(mid):
@@ -1105,7 +1210,18 @@ def _run_stream(script, loop):
     def CreateSink(self, properties):
       return Tap(self.next_provider.CreateSink(properties))
 
-  tprov = SocketTransportSink.Builder()
+  if script.get('raw'):
+    # 'raw': the transport sink over a bare ScalesSocket (no VarzSocketWrapper): frames go through
+    # ScalesSocket.write, the loop over partial handle.send() calls
+    class RawTransportProvider(object):
+      next_provider = None
+
+      def CreateSink(self, properties):
+        ep = properties[SinkProperties.Endpoint]
+        return SocketTransportSink(ss.ScalesSocket(ep.host, ep.port), properties[SinkProperties.Label])
+    tprov = RawTransportProvider()
+  else:
+    tprov = SocketTransportSink.Builder()
   tap = TapProvider()
   tap.next_provider = tprov
   ser = ThriftMuxMessageSerializerSink.Builder()
@@ -1181,8 +1297,11 @@ def _run_stream(script, loop):
     elif k == 'atping':          # relative to the instant the next periodic ping is due
       if st['next_ping'] is not None:
         run_to(st['next_ping'] + op[1] / 1000.0)
-    elif k == 'call':
-      call(op[1], op[2], op[3])
+    elif k == 'call':                # [.., arg, props, T] or [.., arg prefix, props, T, padding length]
+      call(op[1] + (_pad(op[4], len(op[1])) if len(op) > 4 else ''), op[2], op[3])
+    elif k == 'sendmax':
+      if conn() is not None:
+        conn().send_max = op[1]
     elif k == 'run':
       loop.run_until_idle()
     elif k == 'room':
@@ -1304,7 +1423,8 @@ def extra_coverage(prop, tier, traces):
       if 'tag' in e:
         tags.add(e['tag'])
   st = {'traces': 0, 'by_family': {}, 'dispatches_supplied': 0, 'discards_supplied': 0,
-        'with_2_or_more_discards_supplied': 0, 'with_2_or_more_tdiscarded': 0, 'discards_observed': 0, 'chunks': 0, 'bytes': 0, 'with_split_writes': 0,
+        'with_2_or_more_discards_supplied': 0, 'with_2_or_more_tdiscarded': 0, 'discards_observed': 0,
+        'raw_scales_socket': 0, 'with_body_of_16384_or_more': 0, 'largest_dispatch_supplied': 0, 'chunks': 0, 'bytes': 0, 'with_split_writes': 0,
         'with_calls_before_open': 0, 'with_tdiscarded': 0, 'with_periodic_ping': 0, 'connection_closed': 0,
         'closed_in_mid_write': 0}
   for t in traces:
@@ -1317,6 +1437,10 @@ def extra_coverage(prop, tier, traces):
     st['dispatches_supplied'] += sum(1 for e in t['ev'] if e['e'] == 'Sup' and e.get('k') == 'dispatch')
     nd = sum(1 for e in t['ev'] if e['e'] == 'Sup' and e.get('k') == 'discard')
     st['discards_supplied'] += nd
+    st['raw_scales_socket'] += 1 if t.get('script', {}).get('raw') else 0
+    big = max([len(e['payload']) for e in t['ev'] if e['e'] == 'Sup' and e.get('k') == 'dispatch'] + [0])
+    st['with_body_of_16384_or_more'] += 1 if big >= 16384 else 0       # Thrift call alone >= 16 KiB
+    st['largest_dispatch_supplied'] = max(st['largest_dispatch_supplied'], big)
     st['with_2_or_more_discards_supplied'] += 1 if nd >= 2 else 0
     st['with_2_or_more_tdiscarded'] += 1 if sum(1 for ty, _ in fr if ty == 66) >= 2 else 0
     st['discards_observed'] += 1 if t['cfg'].get('supdisc') else 0
